@@ -17,7 +17,7 @@ from vlib.runner import HarnessError, Mismatch, drive
 PROP = "C20"
 LEVEL = "exploration"
 WORKERS = {"quick": 4, "thorough": 16}
-BUDGET = {"quick": 60, "thorough": 600}
+BUDGET = {"quick": 100, "thorough": 600}
 RULE = (
     "Cases: (a) REFUSAL, exhaustive in both tiers: layout {v2 .signac/config, legacy signac.rc} x declared "
     "version {absent,0,1,3,10} (legacy also with a custom workspace_dir) x entry {Project(p), get_project(p), "
